@@ -7,6 +7,7 @@ toolchain go1.23.5
 require (
 	github.com/hashicorp/raft v1.7.3
 	github.com/hashicorp/raft-wal v0.0.0
+	go.etcd.io/bbolt v1.4.3
 )
 
 require (
@@ -21,7 +22,6 @@ require (
 	github.com/mattn/go-colorable v0.1.12 // indirect
 	github.com/mattn/go-isatty v0.0.14 // indirect
 	github.com/segmentio/fasthash v1.0.3 // indirect
-	go.etcd.io/bbolt v1.4.3 // indirect
 	go.etcd.io/etcd/client/pkg/v3 v3.6.4 // indirect
 	go.uber.org/multierr v1.11.0 // indirect
 	go.uber.org/zap v1.27.0 // indirect
